@@ -195,12 +195,14 @@ package table
 //@ initfact kv.ErrNotExist : kv.ErrNotExist != nil
 //@ func json.Unmarshal<*table.Lease>
 //@   assumed
+//@   typefact plainjson table.Lease
 //@   params data, v
 //@   results err
 //@   ensures err == nil ==> *asType(v, *table.Lease) == leaseOf(bytesOf(data))
 //@   modifies fields(asType(v, *table.Lease))
 //@ func json.Marshal<table.Lease>
 //@   assumed
+//@   typefact plainjson table.Lease
 //@   params v
 //@   results data, err
 //@   ensures err == nil ==> fresh(data) && leaseOf(bytesOf(data)) == asType(v, table.Lease)
@@ -288,12 +290,14 @@ package table
 //@ uninterp func tableOf(b Bytes) Table
 //@ func json.Unmarshal<*table.Table>
 //@   assumed
+//@   typefact plainjson table.Table
 //@   params data, v
 //@   results err
 //@   ensures err == nil ==> *asType(v, *table.Table) == tableOf(bytesOf(data))
 //@   modifies fields(asType(v, *table.Table))
 //@ func json.Marshal<*table.Table>
 //@   assumed
+//@   typefact plainjson table.Table
 //@   params v
 //@   results data, err
 //@   ensures err == nil ==> fresh(data) && tableOf(bytesOf(data)) == *asType(v, *table.Table)
